@@ -237,6 +237,9 @@ func (e *unitsEngine) declareUnitsFromTags() {
 // if the column only ever advances by one per decoded rune, they count runes.
 func (e *unitsEngine) detectColumnUnit() {
 	adds2 := false
+	// the column counter by role: the struct field(s) of package parser whose value is stored into the exported
+	// parser.Position.Column (the unexported counter may be renamed or moved into a cursor struct)
+	colFields := map[string]bool{"parser.Lexer.column": true}
 	for _, f := range e.funcs {
 		if f.Pkg == nil || !strings.HasSuffix(f.Pkg.Pkg.Path(), "/parser") {
 			continue
@@ -248,7 +251,58 @@ func (e *unitsEngine) detectColumnUnit() {
 					continue
 				}
 				fa, ok := st.Addr.(*ssa.FieldAddr)
-				if !ok || fieldKey(fa.X.Type(), fa.Field) != "parser.Lexer.column" {
+				if !ok || fieldKey(fa.X.Type(), fa.Field) != "parser.Position.Column" {
+					continue
+				}
+				if ld, ok := st.Val.(*ssa.UnOp); ok && ld.Op == token.MUL {
+					if src, ok := ld.X.(*ssa.FieldAddr); ok {
+						if k := fieldKey(src.X.Type(), src.Field); k != "" && strings.HasPrefix(k, "parser.") && k != "parser.Position.Column" {
+							colFields[k] = true
+						}
+					}
+				}
+			}
+			// likewise the byte offset and the line counter (whatever they are called)
+			for _, ins := range b.Instrs {
+				st, ok := ins.(*ssa.Store)
+				if !ok {
+					continue
+				}
+				fa, ok := st.Addr.(*ssa.FieldAddr)
+				if !ok {
+					continue
+				}
+				var u unit
+				switch fieldKey(fa.X.Type(), fa.Field) {
+				case "parser.Position.Offset":
+					u = uByte
+				case "parser.Position.Line":
+					u = uLine
+				default:
+					continue
+				}
+				if ld, ok := st.Val.(*ssa.UnOp); ok && ld.Op == token.MUL {
+					if src, ok := ld.X.(*ssa.FieldAddr); ok {
+						if k := fieldKey(src.X.Type(), src.Field); k != "" && strings.HasPrefix(k, "parser.") && !strings.HasPrefix(k, "parser.Position.") && !strings.HasPrefix(k, "parser.Token.") {
+							fieldUnits[k] = u
+						}
+					}
+				}
+			}
+		}
+	}
+	for _, f := range e.funcs {
+		if f.Pkg == nil || !strings.HasSuffix(f.Pkg.Pkg.Path(), "/parser") {
+			continue
+		}
+		for _, b := range f.Blocks {
+			for _, ins := range b.Instrs {
+				st, ok := ins.(*ssa.Store)
+				if !ok {
+					continue
+				}
+				fa, ok := st.Addr.(*ssa.FieldAddr)
+				if !ok || !colFields[fieldKey(fa.X.Type(), fa.Field)] {
 					continue
 				}
 				// value = column + k where k is 2, or a value derived from a utf16 width helper
@@ -280,7 +334,10 @@ func (e *unitsEngine) detectColumnUnit() {
 	} else {
 		columnUnit = uRune
 	}
-	for _, k := range []string{"parser.Position.Column", "ast.Position.Column", "parser.Lexer.column"} {
+	for _, k := range []string{"parser.Position.Column", "ast.Position.Column"} {
+		fieldUnits[k] = columnUnit
+	}
+	for k := range colFields {
 		fieldUnits[k] = columnUnit
 	}
 }
